@@ -985,7 +985,7 @@ func (sc *scenario) judge(o *outcome, e *expectation, path string, r *rep.Report
 		}
 		arg := ""
 		if stage == "rcpt" {
-			arg = strings.ToLower(x.Rcpt) // per mailbox, see below
+			arg = x.Rcpt // per exact recipient string, see below
 		}
 		calls[key{c, stage, arg}]++
 		if states[c] == nil {
@@ -994,8 +994,10 @@ func (sc *scenario) judge(o *outcome, e *expectation, path string, r *rep.Report
 		states[c][x.Delivery] = true
 		r.Count("check_calls_"+stage, 1)
 	}
-	// Recipient-stage calls are counted per mailbox (case-folded address). A mailbox named in m
-	// RCPT commands (repeated, also in another spelling) is "handled" m times: whether the check
+	// Recipient-stage calls are counted per exact recipient string: two spellings of one mailbox
+	// (letter case, NFC/NFD, A-label/U-label) are two recipients - both are handed to the targets,
+	// and what a check says depends on the string it is shown - so each of them has to be seen.
+	// A string named in m RCPT commands (exact repeats) is "handled" m times: whether the check
 	// has to see it once or m times is not stated, so 1..m calls are accepted (m = 1: exactly once).
 	type mailbox struct {
 		name        string
@@ -1006,12 +1008,12 @@ func (sc *scenario) judge(o *outcome, e *expectation, path string, r *rep.Report
 	for i, rc := range sc.rcpts {
 		var mb *mailbox
 		for _, b := range boxes {
-			if b.name == strings.ToLower(rc) {
+			if b.name == rc {
 				mb = b
 			}
 		}
 		if mb == nil {
-			mb = &mailbox{name: strings.ToLower(rc), first: i}
+			mb = &mailbox{name: rc, first: i}
 			boxes = append(boxes, mb)
 		}
 		mb.cmds++
@@ -1353,9 +1355,23 @@ func TestVerif(t *testing.T) {
 			}
 			removed := sc.extend(prng.New(r.Seed(), uint64(i), "c06-repeated-rcpts-and-check-groups"))
 			r.Count("rcpt_stage_rejects_of_exactly_repeated_recipients_not_generated", int64(removed))
+			// recipients that differ only in spelling get verdicts of their own (pairs_test.go)
+			sc.spellingPairs(prng.New(r.Seed(), uint64(i), "c06-recipients-differing-only-in-spelling"), !par)
 			sc.normalise()
 			e := sc.model()
 			cls := sc.spellingClass()
+			if pc := sc.pairClass(e); len(pc.kinds) > 0 {
+				r.Count("cases_recipients_differing_only_in_spelling", 1)
+				for k := range pc.kinds {
+					r.Count("cases_recipients_differing_only_in_spelling/"+k, 1)
+				}
+				if pc.verdictsDiffer {
+					r.Count("cases_spellings_of_one_mailbox_with_differing_verdicts_of_an_applicable_check", 1)
+				}
+				if pc.oneRefusedOnly {
+					r.Count("cases_exactly_one_spelling_of_a_mailbox_refused_at_rcpt", 1)
+				}
+			}
 			if rq, mixed := sc.parallelReplayClass(e); mixed > 0 {
 				r.Count("cases_differing_verdicts_side_by_side_at_replayed_stage", 1)
 				if rq > 0 {
@@ -1519,6 +1535,9 @@ func TestVerif(t *testing.T) {
 	dmarcGroup(t, r)
 	remoteGroup(t, r)
 	remotePipelineGroup(t, r)
+	behindQueueGroup(t, r)
+	nestedGroup(t, r)
+	statelessGroup(t, r)
 	endpointGroup(t, r)
 	r.Set("exhaustive", map[string]any{"completion_orders": "all k! rank orders of the k<=4 checks of every scenario, on both body paths"})
 }
